@@ -169,6 +169,9 @@ class Pipeline(object):
                     raise AnalysisError('evaluation point is not x + offset: %r [%s]' % (v, where))
                 off.append(d)
             key = tuple(off)
+            if extra or kw:
+                # extra call arguments are part of the identity of the evaluation
+                key = key + (('args', repr(extra), repr(sorted(kw.items()))),)
             calls.append((key, where, kind))
             if kind == 'bicomplex':
                 o = Obj(bic)
@@ -179,10 +182,25 @@ class Pipeline(object):
         return user_f
 
     def clear_cache(self):
+        """Restore the rule cache to its import-time content (normally empty)."""
         fd = self.repo.module('finite_difference')
         ok, cache = self.interp.ns(fd).get('FD_RULES')
         if ok and isinstance(cache, dict):
+            if not hasattr(self, '_cache_init'):
+                self._cache_init = dict(cache)
             cache.clear()
+            cache.update(self._cache_init)
+    reset_cache = clear_cache
+
+    def cache(self):
+        fd = self.repo.module('finite_difference')
+        ok, cache = self.interp.ns(fd).get('FD_RULES')
+        return cache if ok else None
+
+    def canon(self, v):
+        """Canonical, registry independent description of an abstract value (W atoms are renamed after the
+        content of their matrix)."""
+        return canon_value(v, self.reg)
 
     def build(self, clsname, method, order, n=None, step=None, dim=None, full_output=False, **options):
         """Construct core.<clsname>(f, ...) abstractly.  Returns (obj, x)."""
@@ -212,3 +230,45 @@ class Pipeline(object):
         r = Poly.sym(ratio) if isinstance(ratio, str) else ratio
         b = Poly.sym(base) if isinstance(base, str) else base
         return cref(base_step=b, step_ratio=r, num_steps=num_steps, step_nom=1, **kw)
+
+
+def _mat_key(M):
+    return 'M[' + ';'.join(repr(e) for e in M.items()) + ']' + repr(M.shape)
+
+
+def canon_poly(p, reg):
+    if not isinstance(p, Poly):
+        return repr(p)
+    ren = {}
+    for a in p.atoms():
+        if a[0] == 'W' and '_' in a and a.split('_')[0] in reg.mats:
+            tag, i, j = a.split('_')
+            ren[a] = 'W{%s}_%s_%s' % (_mat_key(reg.mats[tag]), i, j)
+    if not ren:
+        return repr(p)
+    out = []
+    for mono, c in p.t.items():
+        m2 = tuple(sorted((ren.get(s, s), e) for s, e in mono))
+        out.append((m2, repr(c)))
+    return repr(sorted(out))
+
+
+def canon_value(v, reg):
+    from .stencil import FV
+    from .absint import Obj
+    if isinstance(v, Arr):
+        return ('arr', v.shape, tuple(canon_value(e, reg) for e in v.items()))
+    if isinstance(v, (tuple, list)):
+        return ('seq', tuple(canon_value(e, reg) for e in v))
+    if isinstance(v, FV):
+        terms = []
+        for proj, inner in v.terms.items():
+            for (off, comp), c in inner.items():
+                terms.append((repr(proj), repr(off), comp, canon_poly(c, reg)))
+        return ('fv', tuple(sorted(terms)))
+    if isinstance(v, Poly):
+        return canon_poly(v, reg)
+    if isinstance(v, Obj):
+        return ('obj', v.cls.name, tuple(sorted((k, canon_value(x, reg)) for k, x in v.attrs.items()
+                                               if not callable(x) and not isinstance(x, Obj))))
+    return repr(v)
